@@ -76,8 +76,9 @@ def main():
     dst = os.path.join(VERIF, "seeded", seed_id)
     if ok:
         os.makedirs(dst, exist_ok=True)
-        shutil.copy(os.path.join(seed_dir, "patch.diff"), dst)
-        shutil.copy(os.path.join(seed_dir, "demo.py"), dst)
+        if os.path.realpath(seed_dir) != os.path.realpath(dst):
+            shutil.copy(os.path.join(seed_dir, "patch.diff"), dst)
+            shutil.copy(os.path.join(seed_dir, "demo.py"), dst)
         meta = {}
         try:
             meta = json.load(open(os.path.join(seed_dir, "meta.json")))
